@@ -5,7 +5,7 @@
 //! runs the children in parallel.
 use crate::c11_expr::parse_prefix_pub as parse_prefix;
 use crate::loaddump::{dump_registry, fmt_def};
-use crate::util::{Opts, Rng};
+use crate::util::{hex, Opts, Rng};
 use rink_core::ast::{Def, DefEntry, Defs, ExprString, Property};
 use rink_core::Context;
 use std::io::Write;
@@ -49,6 +49,99 @@ pub fn parse_tdef(line: &str) -> Option<DefEntry> {
     Some(DefEntry { name, def: Rc::new(def), doc, category })
 }
 
+fn push_errors(errors: &mut Vec<String>, r: Result<(), String>) {
+    if let Err(e) = r {
+        if e.starts_with("Multiple errors") {
+            // `Context::load` joins the messages with newlines; a message can itself span lines (a
+            // quoted name may contain a line break), so a new message starts only at a known opening
+            const STARTS: [&str; 11] = ["Unit ", "Prefix ", "Quantity ", "Substance ", "Def ", "warning: ", "Warning: ", "Doc conflict", "Category conflict", "unit ", "prefix "];
+            let mut msgs: Vec<String> = vec![];
+            for l in e.split('\n').skip(1) {
+                let opens = l.strip_prefix("  ").map(|r| STARTS.iter().any(|p| r.starts_with(p)) || r.contains(" is not a number") || r.contains(" is malformed: ")).unwrap_or(false);
+                if opens || msgs.is_empty() { msgs.push(l.strip_prefix("  ").unwrap_or(l).to_string()); } else { let last = msgs.last_mut().unwrap(); last.push('\n'); last.push_str(l); }
+            }
+            errors.extend(msgs);
+        } else { errors.push("json".to_string()); }
+    }
+}
+
+/// runs the blocks and directives of a scenario against a fresh context
+fn load_scenario(text: &str) -> (Context, Vec<String>) {
+    let mut ctx = Context::new();
+    let mut errors: Vec<String> = vec![];
+    let mut cur: Vec<DefEntry> = vec![];
+    for line in text.lines() {
+        if line.starts_with("begin") { cur = vec![]; }
+        else if line.starts_with("end") {
+            let defs = Defs { defs: std::mem::take(&mut cur) };
+            push_errors(&mut errors, ctx.load(defs));
+        } else if line.starts_with("tdef ") { if let Some(d) = parse_tdef(line) { cur.push(d); } }
+        else if let Some(p) = line.strip_prefix("text ") {
+            let t = std::fs::read_to_string(crate::evalsess::unhex(p.trim())).expect("read text file");
+            push_errors(&mut errors, ctx.load_definitions(&t));
+        } else if let Some(p) = line.strip_prefix("multitext ") {
+            // what the CLI does with several definitions.units files: parse each, concatenate, one load
+            let mut defs = vec![];
+            for f in p.trim().split(' ') {
+                let t = std::fs::read_to_string(crate::evalsess::unhex(f)).expect("read text file");
+                defs.extend(rink_core::loader::gnu_units::parse_str(&t).defs);
+            }
+            push_errors(&mut errors, ctx.load(Defs { defs }));
+        } else if let Some(p) = line.strip_prefix("currency ") {
+            let (j, u) = p.trim().split_once(' ').expect("currency JSON UNITS");
+            let jt = std::fs::read_to_string(crate::evalsess::unhex(j)).expect("read json");
+            let ut = std::fs::read_to_string(crate::evalsess::unhex(u)).expect("read units");
+            push_errors(&mut errors, ctx.load_currency(&jt, &ut));
+        }
+    }
+    (ctx, errors)
+}
+
+/// The predicates of C08 computed on the real registry (independent of the model).
+fn oracle(ctx: &Context, w: &mut impl Write) {
+    use rink_core::ast::Expr;
+    use rink_core::runtime::Value;
+    let r = &ctx.registry;
+    let mut line = |tag: &str, mut l: Vec<String>| { l.sort(); writeln!(w, "oracle {} {} {}", tag, l.len(), l.iter().map(|x| hex(x)).collect::<Vec<_>>().join(" ")).unwrap(); };
+    let mut bad = vec![];
+    let mut checked = 0usize;
+    for (n, e) in &r.definitions {
+        if let Some(v) = r.units.get(n) {
+            checked += 1;
+            match ctx.eval(e) { Ok(Value::Number(x)) if x == *v => {}, _ => bad.push(n.clone()) }
+        }
+    }
+    line("fixedPointBad", bad);
+    let mut foreign = vec![];
+    for (n, v) in &r.units { if v.unit.iter().any(|(k, p)| !r.base_units.contains(k) || *p == 0) { foreign.push(n.clone()); } }
+    line("foreignDims", foreign);
+    let mut seen = std::collections::BTreeMap::new();
+    let mut qbad = vec![];
+    for (_, n) in &r.quantities { if seen.insert(n.clone(), ()).is_some() { qbad.push(n.clone()); } }
+    line("quantityMismatch", qbad);
+    let mut dangling = vec![];
+    for (n, e) in &r.definitions {
+        if !r.units.contains_key(n) { continue; }
+        if let Expr::Unit { name } = e {
+            let mut t = name.clone();
+            let mut steps = 0usize;
+            loop {
+                if r.base_units.contains(&t[..]) { break; }
+                match r.definitions.get(&t) { Some(Expr::Unit { name }) => { t = name.clone(); steps += 1; if steps > r.definitions.len() { break; } } _ => break }
+            }
+            if steps > r.definitions.len() || ctx.lookup(&t).is_none() { dangling.push(n.clone()); }
+        }
+    }
+    line("danglingAliases", dangling);
+    let exists = |n: &str| r.units.contains_key(n) || r.definitions.contains_key(n) || r.base_units.contains(n) || r.prefixes.iter().any(|(p, _)| p == n)
+        || r.quantities.values().any(|q| q == n) || r.substances.contains_key(n) || r.category_names.contains_key(n);
+    let mut orphans = vec![];
+    for (n, _) in &r.docs { if !exists(n) { orphans.push(format!("doc:{}", n)); } }
+    for (n, c) in &r.categories { if !exists(n) { orphans.push(format!("category:{}", n)); } else if !r.category_names.contains_key(c) { orphans.push(format!("undeclared-category:{}", c)); } }
+    line("orphans", orphans);
+    writeln!(w, "oracle fixedPointChecked {}", checked).unwrap();
+}
+
 /// child: load one scenario, print the dump (or `panic`)
 pub fn loadone(o: &Opts) -> i32 {
     let text = std::fs::read_to_string(o.input.as_ref().expect("--input")).expect("read scenario");
@@ -58,25 +151,32 @@ pub fn loadone(o: &Opts) -> i32 {
         *PANIC_AT.lock().unwrap() = format!("{} {}", loc, msg.replace('\n', " "));
     }));
     let res = std::panic::catch_unwind(|| {
-        let mut ctx = Context::new();
-        let mut errors: Vec<String> = vec![];
-        let mut cur: Vec<DefEntry> = vec![];
-        for line in text.lines() {
-            if line.starts_with("begin") { cur = vec![]; }
-            else if line.starts_with("end") {
-                let defs = Defs { defs: std::mem::take(&mut cur) };
-                if let Err(e) = ctx.load(defs) { errors.extend(e.lines().skip(1).map(|l| l.trim().to_string())); }
-            } else if line.starts_with("tdef ") { if let Some(d) = parse_tdef(line) { cur.push(d); } }
-        }
+        let (mut ctx, errors) = load_scenario(&text);
+        // loading is a function of the input: a second load gives the same database
+        let (ctx2, errors2) = load_scenario(&text);
+        let mut d1 = vec![]; dump_registry(&ctx, &errors, &mut d1);
+        let mut d2 = vec![]; dump_registry(&ctx2, &errors2, &mut d2);
         // the context must still answer queries about whatever did load
         ctx.use_humanize = false;
         let usable = match rink_core::one_line(&mut ctx, "1 + 1") { Ok(s) => s.starts_with('2'), Err(_) => false };
-        (ctx, errors, usable)
+        let mut probes = vec![];
+        let names: Vec<String> = ctx.registry.units.keys().take(2000).cloned().collect();
+        for n in names.iter().step_by((names.len() / 20).max(1)) { let _ = rink_core::one_line(&mut ctx, n); probes.push(n.clone()); }
+        let syms: Vec<String> = ctx.registry.substance_symbols.keys().take(12).cloned().collect();
+        for sy in syms { let q = format!("{}2", sy); let _ = rink_core::one_line(&mut ctx, &q); probes.push(q); }
+        let subs: Vec<String> = ctx.registry.substances.keys().take(12).cloned().collect();
+        for sb in subs { let _ = rink_core::one_line(&mut ctx, &sb); let q = format!("2 {}", sb); let _ = rink_core::one_line(&mut ctx, &q); probes.push(q); }
+        (ctx, errors, usable, d1 == d2, probes.len())
     });
-    let out = std::io::stdout();
-    let mut w = std::io::BufWriter::new(out.lock());
+    // the definitions parser prints its syntax diagnostics on stdout, so the dump goes to a file
+    let mut w = std::io::BufWriter::new(std::fs::File::create(std::env::var("RKH_DUMP").expect("RKH_DUMP")).expect("create dump"));
     match res {
-        Ok((ctx, errors, usable)) => { dump_registry(&ctx, &errors, &mut w); writeln!(w, "usable {}", usable).unwrap(); }
+        Ok((ctx, errors, usable, same, probes)) => {
+            dump_registry(&ctx, &errors, &mut w);
+            oracle(&ctx, &mut w);
+            writeln!(w, "usable {} probes {}", usable, probes).unwrap();
+            writeln!(w, "deterministic {}", same).unwrap();
+        }
         Err(_) => writeln!(w, "panic {}", PANIC_AT.lock().unwrap()).unwrap(),
     }
     w.flush().unwrap();
@@ -91,6 +191,99 @@ fn write_scenario(path: &str, blocks: &[Vec<&DefEntry>]) {
         writeln!(f, "end").unwrap();
     }
     f.flush().unwrap();
+}
+
+fn write_text_scenario(dir: &str, id: &str, text: &str) {
+    let path = format!("{}/{}.units", dir, id);
+    std::fs::write(&path, text).unwrap();
+    std::fs::write(format!("{}/{}.tdefs", dir, id), format!("text {}\n", hex(&path))).unwrap();
+}
+
+/// a scenario that loads `base` text and then currency data from `json`
+fn write_json_scenario(dir: &str, id: &str, base: &str, json: &str, cur_units: &str) {
+    let bpath = format!("{}/{}.base.units", dir, id);
+    std::fs::write(&bpath, base).unwrap();
+    let jpath = format!("{}/{}.json", dir, id);
+    std::fs::write(&jpath, json).unwrap();
+    let upath = format!("{}/{}.currency.units", dir, id);
+    std::fs::write(&upath, cur_units).unwrap();
+    // the model reads the JSON in line form; what the typed deserializer rejects is `jsonerror`
+    let typed: Result<Vec<DefEntry>, _> = serde_json::from_str(json);
+    let jd = if typed.is_ok() { crate::loaddump::jsondefs_text(json) } else { "jsonerror\n".to_string() };
+    std::fs::write(format!("{}.jdefs", jpath), jd).unwrap();
+    std::fs::write(format!("{}/{}.tdefs", dir, id), format!("text {}\ncurrency {} {}\n", hex(&bpath), hex(&jpath), hex(&upath))).unwrap();
+}
+
+fn mutate_lines(rng: &mut Rng, text: &str, n: u64) -> String {
+    let mut lines: Vec<String> = text.lines().map(|l| l.to_string()).collect();
+    for _ in 0..n {
+        if lines.is_empty() { break; }
+        let a = rng.below(lines.len() as u64) as usize;
+        let b = rng.below(lines.len() as u64) as usize;
+        match rng.below(7) {
+            0 => { lines.remove(a); }
+            1 => { let l = lines[a].clone(); lines.insert(b, l); }
+            2 => lines.swap(a, b),
+            3 | 4 => {
+                // token level
+                let mut toks: Vec<String> = lines[a].split_whitespace().map(|t| t.to_string()).collect();
+                if toks.is_empty() { continue; }
+                let i = rng.below(toks.len() as u64) as usize;
+                let j = rng.below(toks.len() as u64) as usize;
+                match rng.below(4) { 0 => { toks.remove(i); } 1 => { let t = toks[i].clone(); toks.insert(j, t); } 2 => toks.swap(i, j),
+                    _ => { let t = (*rng.pick(&["{", "}", "!", "??", "(", ")", "^", "|", "/", "-", "+", "*", "!category", "!endcategory", "!symbol", "!unknown", "\"", "\\u", "\\u{110000}", "0", "1e999999", "1|0", "#"])).to_string(); toks.insert(i, t); } }
+                lines[a] = toks.join(" ");
+            }
+            5 => {
+                // character level
+                let mut cs: Vec<char> = lines[a].chars().collect();
+                if cs.is_empty() { continue; }
+                let i = rng.below(cs.len() as u64) as usize;
+                match rng.below(3) { 0 => { cs.remove(i); } 1 => cs.insert(i, *rng.pick(&['{', '}', '(', ')', '"', '\\', '#', '!', '?', '^', '\u{0}', '\u{e9}', '\u{2126}', '\t', '\r'])), _ => { let c = cs[i]; cs.insert(i, c); } }
+                lines[a] = cs.into_iter().collect();
+            }
+            _ => { let l = lines.len(); lines.truncate(a.max(1).min(l)); }
+        }
+    }
+    lines.join("\n") + "\n"
+}
+
+fn random_units_text(rng: &mut Rng) -> String {
+    let mut t = String::new();
+    let n = 5 + rng.below(40);
+    let name = |rng: &mut Rng| -> String { match rng.below(8) { 0 => "m".into(), 1 => "s".into(), 2 => "kg".into(), 3 => format!("u{}", rng.below(n)), 4 => format!("kilou{}", rng.below(n)), 5 => format!("u{}s", rng.below(n)), 6 => format!("{}", rng.below(7)), _ => format!("{}.{}e{}", rng.below(9), rng.below(99), rng.range(-4, 5)) } };
+    let expr = |rng: &mut Rng| -> String {
+        let a = name(rng); let b = name(rng);
+        match rng.below(12) { 0 => format!("{} {}", a, b), 1 => format!("{} / {}", a, b), 2 => format!("{}^{}", a, rng.range(-3, 4)), 3 => format!("{} + {}", a, b), 4 => format!("{}|{}", rng.below(4), rng.below(4)),
+            5 => format!("-{}", a), 6 => format!("({} {}) / ({} - {})", a, b, b, a), 7 => format!("{} per {}", a, b), 8 => format!("sqrt({})", a), 9 => format!("{}^({}|{})", a, rng.below(3), rng.below(3)), 10 => format!("{} * {}", a, b), _ => a }
+    };
+    t.push_str("m !\ns !\nkg !kilogram\nkilo- 1e3\nk- kilo\n");
+    let mut in_cat = false;
+    for j in 0..n {
+        match rng.below(16) {
+            0 => { if in_cat { t.push_str("!endcategory\n"); } t.push_str(&format!("!category cat{} \"Category {}\"\n", rng.below(4), j)); in_cat = true; }
+            1 => { t.push_str("!endcategory\n"); in_cat = false; }
+            2 => t.push_str(&format!("?? documentation for the next entry {}\n", j)),
+            3 => t.push_str(&format!("pf{}- {}\n", rng.below(3), expr(rng))),
+            4 => t.push_str(&format!("PF{}-- pf{}\n", rng.below(3), rng.below(3))),
+            5 => t.push_str(&format!("q{} ? {}\n", rng.below(5), *rng.pick(&["m", "s", "kg", "m / s", "q0 q1", "q2^2", "m^0", "1", "q9", "2 m", "m + s"]))),
+            6 => {
+                t.push_str(&format!("sub{} {{\n", rng.below(6)));
+                for _ in 0..rng.below(4) {
+                    if rng.chance(1, 4) { t.push_str("    ?? property doc\n"); }
+                    if rng.chance(1, 2) { t.push_str(&format!("    prop{} out{} {} / in{} {}\n", rng.below(4), rng.below(3), expr(rng), rng.below(3), expr(rng))); }
+                    else { t.push_str(&format!("    const{} name{} {}\n", rng.below(4), rng.below(3), expr(rng))); }
+                }
+                if !rng.chance(1, 10) { t.push_str("}\n"); }
+            }
+            7 => t.push_str(&format!("!symbol sub{} S{}\n", rng.below(6), rng.below(4))),
+            8 => t.push_str(&format!("u{} !\n", rng.below(n))),
+            9 => t.push_str(&format!("u{} !long{}\n", j, rng.below(n))),
+            10 => t.push_str(&format!("# a comment {}\n", j)),
+            _ => t.push_str(&format!("u{} {}\n", if rng.chance(1, 8) { rng.below(n) } else { j }, expr(rng))),
+        }
+    }
+    t
 }
 
 fn unit(name: &str, expr: &str) -> DefEntry {
@@ -118,12 +311,14 @@ pub fn run(o: &Opts) -> i32 {
     };
     match kind.as_str() {
         "c08" => {
-            add("bundled".into(), "definitions.units".into(), vec![base.iter().collect()], &mut names);
-            let mut cur = text_defs(cur_text);
-            let live: Vec<DefEntry> = serde_json::from_str(&json).expect("currency snapshot");
-            cur.extend(live);
-            add("bundled+currency".into(), "definitions.units, then currency.units + snapshot".into(), vec![base.iter().collect(), cur.iter().collect()], &mut names);
-            add("bundled-again".into(), "definitions.units (second load, determinism)".into(), vec![base.iter().collect()], &mut names);
+            write_text_scenario(&dir, "bundled", base_text);
+            names.push(("bundled".into(), "definitions.units (as compiled into rink-core)".into()));
+            write_json_scenario(&dir, "bundled+currency", base_text, &json, cur_text);
+            names.push(("bundled+currency".into(), "definitions.units, then load_currency(snapshot, currency.units)".into()));
+            write_text_scenario(&dir, "bundled-again", base_text);
+            names.push(("bundled-again".into(), "definitions.units, a second process (determinism)".into()));
+            // the same through the tree form (separates the parser from the loader)
+            add("bundled-tree".into(), "definitions.units as parsed definitions".into(), vec![base.iter().collect()], &mut names);
         }
         "c12" => {
             // unique names: keep the last declaration of a category id that is declared more than once
@@ -144,6 +339,35 @@ pub fn run(o: &Opts) -> i32 {
                 let mut r = uniq.clone();
                 for j in (1..r.len()).rev() { let k = rng.below(j as u64 + 1) as usize; r.swap(j, k); }
                 add(format!("shuffle{}", i), format!("random permutation #{}", i), vec![r], &mut names);
+            }
+            // the bundled text split into 1..3 files at category boundaries, in every file order
+            {
+                // the premise of C12 is uniquely named definitions: a category id declared twice
+                // (the bundled file declares `japanese` twice) gets one display name
+                let mut last: std::collections::BTreeMap<String, String> = Default::default();
+                for l in base_text.lines() { if let Some(rest) = l.strip_prefix("!category ") { last.insert(rest.split_whitespace().next().unwrap_or("").to_string(), l.to_string()); } }
+                let uniq_text: String = base_text.lines().map(|l| match l.strip_prefix("!category ") {
+                    Some(rest) => last.get(rest.split_whitespace().next().unwrap_or("")).cloned().unwrap_or_else(|| l.to_string()),
+                    None => l.to_string(),
+                }).collect::<Vec<_>>().join("\n");
+                let lines: Vec<&str> = uniq_text.lines().collect();
+                let cuts: Vec<usize> = lines.iter().enumerate().filter(|(i, l)| l.starts_with("!category") && *i > 0 && lines[..*i].iter().rev().find(|x| x.starts_with('!')).map(|x| x.starts_with("!endcategory")).unwrap_or(false)).map(|(i, _)| i).collect();
+                let nsplit = if o.thorough { 12 } else { 3 };
+                for k in 0..nsplit {
+                    let mut cs: Vec<usize> = vec![];
+                    let parts = 2 + (k % 2);
+                    while cs.len() < parts - 1 { let c = *rng.pick(&cuts); if !cs.contains(&c) { cs.push(c); } }
+                    cs.sort();
+                    let mut files = vec![]; let mut prev = 0;
+                    for c in cs.iter().chain(std::iter::once(&lines.len())) { files.push(lines[prev..*c].join("\n") + "\n"); prev = *c; }
+                    let mut order: Vec<usize> = (0..files.len()).collect();
+                    if k > 0 { for j in (1..order.len()).rev() { let q = rng.below(j as u64 + 1) as usize; order.swap(j, q); } if order.iter().enumerate().all(|(a, b)| a == *b) { order.reverse(); } }
+                    let mut paths = vec![];
+                    for (j, f) in files.iter().enumerate() { let path = format!("{}/split{}.{}.units", dir, k, j); std::fs::write(&path, f).unwrap(); paths.push(path); }
+                    let id = format!("split{}", k);
+                    std::fs::write(format!("{}/{}.tdefs", dir, id), format!("multitext {}\n", order.iter().map(|j| hex(&paths[*j])).collect::<Vec<_>>().join(" "))).unwrap();
+                    names.push((id, format!("definitions.units split into {} files at lines {:?}, loaded in file order {:?}", files.len(), cs, order)));
+                }
             }
             // generated databases: deep chains and wide fans, permuted
             let mut gen: Vec<DefEntry> = vec![DefEntry { name: "b0".into(), def: Rc::new(Def::BaseUnit { long_name: Some("base0".into()) }), doc: None, category: None }];
@@ -221,12 +445,64 @@ pub fn run(o: &Opts) -> i32 {
                 let mut v: Vec<DefEntry> = text_defs(base_text);
                 for _ in 0..(5 + rng.below(40)) {
                     let a = rng.below(v.len() as u64) as usize; let b = rng.below(v.len() as u64) as usize;
-                    match rng.below(3) { 0 => { v.remove(a); } 1 => { let d = text_defs(base_text).into_iter().nth(a).unwrap(); v.insert(b.min(v.len()), d); } _ => v.swap(a, b) }
+                    match rng.below(3) { 0 => { v.remove(a); } 1 => { let all = text_defs(base_text); let n = all.len(); let d = all.into_iter().nth(a % n).unwrap(); v.insert(b.min(v.len()), d); } _ => v.swap(a, b) }
                 }
                 scen.push((format!("mut{}", i), "bundled database with entries deleted / duplicated / swapped".into(), v));
             }
             // keep the scenarios alive while writing
             for (id, desc, v) in &scen { add(id.clone(), desc.clone(), vec![v.iter().collect()], &mut names); }
+            // ---- text level: the real entry points (`load_definitions`, `load_currency`)
+            let ntext = if o.thorough { 60 } else { 6 };
+            for i in 0..ntext {
+                let k = [3u64, 30, 300][i % 3];
+                write_text_scenario(&dir, &format!("textmut{}", i), &mutate_lines(&mut rng, base_text, k));
+                names.push((format!("textmut{}", i), format!("definitions.units with {} line/token/character mutations", k)));
+            }
+            let nrt = if o.thorough { 600 } else { 60 };
+            for i in 0..nrt {
+                let mut t = random_units_text(&mut rng);
+                if rng.chance(1, 3) { let k = 1 + rng.below(4); t = mutate_lines(&mut rng, &t, k); }
+                write_text_scenario(&dir, &format!("textrand{}", i), &t);
+                names.push((format!("textrand{}", i), "grammar-directed random definitions file".into()));
+            }
+            for (i, t) in ["", "\n", "{", "}", "a {", "a { b", "a { b c", "a { b c d /", "a { b c d / e", "!category", "!category x", "!category x \"", "!endcategory", "!symbol", "!symbol H", "??", "?? doc", "x", "x !", "x !y\nx !y", "x- ", "x-- y", "a ? ", "a ? b ^ c", "a 1 /", "a (", "a )", "a 1e", "a \\u", "a \\u{", "a \"unterminated", "a #", "a 1 # c\n  continued", "a\tb", "a b\r\nc d\r\n", "\u{feff}a 1", "a 0x", "a 1|", "a |1", "a ^", "a 2^^3", "a -", "a --1", "a 1 per", "a sqrt(", "a f(1,", "a 1,2", "a !", "! x", "!include foo", "a { } }", "m !\n!symbol foo Xx\nfoo {\n    molar_mass mass 5 m / amount 1\n}\nzbar Xx2\n", "a 1\na 2\na- 3\na- 4\na ? m\na ? s"].iter().enumerate() {
+                write_text_scenario(&dir, &format!("edge{}", i), t);
+                names.push((format!("edge{}", i), format!("edge text {:?}", t)));
+            }
+            // ---- currency JSON
+            let entries: Vec<serde_json::Value> = serde_json::from_str::<serde_json::Value>(&json).ok().and_then(|v| v.as_array().cloned()).unwrap_or_default();
+            let mut jn = 0;
+            let mut addj = |id: String, desc: String, j: String, names: &mut Vec<(String, String)>| { write_json_scenario(&dir, &id, base_text, &j, cur_text); names.push((id, desc)); };
+            for cut in [0usize, 1, 2, 10, json.len() / 3, json.len() / 2, json.len().saturating_sub(2), json.len().saturating_sub(1)] {
+                let mut c = cut.min(json.len()); while !json.is_char_boundary(c) { c -= 1; }
+                addj(format!("jsoncut{}", jn), format!("currency JSON truncated to {} bytes", c), json[..c].to_string(), &mut names); jn += 1;
+            }
+            for (i, j) in ["null", "{}", "[]", "[1]", "[null]", "[{}]", "\"x\"", "[{\"name\":1}]", "[{\"name\":\"x\",\"type\":\"unit\"}]", "[{\"name\":\"x\",\"type\":\"unit\",\"expr\":5}]",
+                           "[{\"name\":\"x\",\"doc\":null,\"category\":null,\"type\":\"unit\",\"expr\":\"1 +\"}]", "[{\"name\":\"x\",\"doc\":null,\"category\":null,\"type\":\"nosuch\",\"expr\":\"1\"}]",
+                           "[{\"name\":\"x\",\"doc\":null,\"category\":null,\"type\":\"unit\",\"expr\":\"1 / 0\"}]", "[{\"name\":\"x\",\"doc\":null,\"category\":null,\"type\":\"unit\",\"expr\":\"x\"}]",
+                           "[{\"name\":\"x\",\"doc\":null,\"category\":null,\"type\":\"prefix\",\"expr\":\"1|0\",\"isLong\":true}]", "[{\"name\":\"x\",\"doc\":null,\"category\":null,\"type\":\"prefix\",\"expr\":\"2\",\"isLong\":\"yes\"}]",
+                           "[{\"name\":\"USD\",\"doc\":null,\"category\":null,\"type\":\"unit\",\"expr\":\"2 EUR\"},{\"name\":\"EUR\",\"doc\":null,\"category\":null,\"type\":\"unit\",\"expr\":\"2 USD\"}]",
+                           "[{\"name\":\"x\",\"doc\":null,\"category\":null,\"type\":\"substance\",\"symbol\":null,\"properties\":[{\"name\":\"p\",\"doc\":null,\"inputName\":\"a\",\"input\":\"1 kg\",\"outputName\":\"b\",\"output\":\"0 kg\"}]}]",
+                           "[{\"name\":\"x\",\"doc\":null,\"category\":null,\"type\":\"quantity\",\"expr\":\"m^99999999999999999999\"}]", "[{\"name\":\"x\",\"doc\":null,\"category\":null,\"type\":\"baseUnit\",\"longName\":7}]"].iter().enumerate() {
+                addj(format!("jsonedge{}", i), format!("currency JSON {}", j), j.to_string(), &mut names);
+            }
+            let njm = if o.thorough { 40 } else { 6 };
+            for i in 0..njm {
+                let mut es = entries.clone();
+                for _ in 0..(1 + rng.below(12)) {
+                    if es.is_empty() { break; }
+                    let a = rng.below(es.len() as u64) as usize; let b = rng.below(es.len() as u64) as usize;
+                    match rng.below(6) {
+                        0 => { es.remove(a); }
+                        1 => { let e = es[a].clone(); es.insert(b, e); }
+                        2 => es.swap(a, b),
+                        3 => { let key = *rng.pick(&["name", "type", "expr", "doc", "category"]); if let Some(o) = es[a].as_object_mut() { o.remove(key); } }
+                        4 => { let key = *rng.pick(&["name", "type", "expr", "doc", "category"]); let v = rng.pick(&[serde_json::json!(null), serde_json::json!(1), serde_json::json!([]), serde_json::json!({}), serde_json::json!("1 / 0"), serde_json::json!("("), serde_json::json!("USD"), serde_json::json!(true)]).clone(); if let Some(o) = es[a].as_object_mut() { o.insert(key.to_string(), v); } }
+                        _ => { if let Some(o) = es[a].as_object_mut() { o.insert("expr".into(), serde_json::json!(format!("{} {}", rng.below(9), *rng.pick(&["USD", "EUR", "JPY", "nosuch", "m", "1|0", "BTC"])))); } }
+                    }
+                }
+                addj(format!("jsonmut{}", i), "currency snapshot with entries deleted / duplicated / swapped / type-confused".into(), serde_json::Value::Array(es).to_string(), &mut names);
+            }
         }
     }
     drop(add);
@@ -236,19 +512,31 @@ pub fn run(o: &Opts) -> i32 {
     let next = std::sync::Arc::new(std::sync::Mutex::new(0usize));
     let ids = std::sync::Arc::new(ids);
     let mut hs = vec![];
-    for _ in 0..8 {
+    for _ in 0..14 {
         let (next, ids, dir, exe) = (next.clone(), ids.clone(), dir.clone(), exe.clone());
         hs.push(std::thread::spawn(move || loop {
             let k = { let mut n = next.lock().unwrap(); let k = *n; *n += 1; k };
             if k >= ids.len() { break; }
             let scen = format!("{}/{}.tdefs", dir, ids[k]);
-            let out = std::process::Command::new(&exe).arg("loadone").arg("--input").arg(&scen).env("RUST_BACKTRACE", "0").stderr(std::process::Stdio::null()).output();
-            let text = match out {
-                Ok(o) if o.status.success() => String::from_utf8_lossy(&o.stdout).into_owned(),
-                Ok(o) => format!("abort {:?}\n", o.status.code()),
-                Err(e) => format!("abort spawn {}\n", e),
+            let outp = format!("{}/{}.impl.dump", dir, ids[k]);
+            let f = std::fs::File::create(format!("{}/{}.impl.stdout", dir, ids[k])).unwrap();
+            let _ = std::fs::remove_file(&outp);
+            let child = std::process::Command::new(&exe).arg("loadone").arg("--input").arg(&scen).env("RUST_BACKTRACE", "0").env("RKH_DUMP", &outp).stderr(std::process::Stdio::null()).stdout(f).spawn();
+            let verdict = match child {
+                Ok(mut ch) => {
+                    let t0 = std::time::Instant::now();
+                    loop {
+                        match ch.try_wait() {
+                            Ok(Some(st)) => break if st.success() { None } else { Some(format!("abort {:?}\n", st)) },
+                            Ok(None) => { if t0.elapsed().as_secs() > 120 { let _ = ch.kill(); let _ = ch.wait(); break Some("timeout\n".to_string()); } std::thread::sleep(std::time::Duration::from_millis(5)); }
+                            Err(e) => break Some(format!("abort wait {}\n", e)),
+                        }
+                    }
+                }
+                Err(e) => Some(format!("abort spawn {}\n", e)),
             };
-            std::fs::write(format!("{}/{}.impl.dump", dir, ids[k]), text).unwrap();
+            if let Some(v) = verdict { std::fs::write(&outp, v).unwrap(); }
+            else if !std::path::Path::new(&outp).exists() { std::fs::write(&outp, "abort no dump\n").unwrap(); }
         }));
     }
     for h in hs { h.join().unwrap(); }
